@@ -1,9 +1,9 @@
 (* C16 — tars2go: valid IDL yields compiling, conformant code; the tool always terminates. Statements only. *)
 From Coq Require Import String.
-From Coq Require Import List NArith ZArith.
+From Coq Require Import List NArith ZArith Sorted.
 From TarsV Require Import Base.Hex Idl.Lexer Idl.LexerProofs Idl.Parser Idl.ParserProofs Idl.Corr.
 From TarsV Require Import Idl.Print Idl.Render.
-From TarsV Require Idl.Schema Idl.SchemaProofs Idl.PrintProofs Idl.RenderProofs Idl.AnalyzeProofs Idl.Accepts Codec.GenCodec Codec.Corr.
+From TarsV Require Idl.Schema Idl.SchemaProofs Idl.PrintProofs Idl.RenderProofs Idl.AnalyzeProofs Idl.Accepts Idl.TablesProofs Idl.GenTablesProofs Idl.Include Idl.IncludeProofs Gen.C16Tables Gen.C16Translated Xlate.GoSem Codec.GenCodec Codec.Corr.
 Import ListNotations.
 Open Scope N_scope.
 
@@ -91,6 +91,112 @@ Theorem C16_accepts_rendered_instance :
   AnalyzeProofs.module_names_ok (module_of (bs "m") Accepts.ex_decls) = true.
 Proof. exact Accepts.accepts_rendered_instance. Qed.
 
+(* member ordering (checkTag + sortTag) and name resolution (checkDepTName), for every input: the members of every
+   struct of an accepted program are strictly ascending by tag, and no user type is left unresolved at any depth -
+   members, vector elements, map keys and VALUES, array elements, parameters, results (the generator picks enum or
+   struct code by the resolved kind) *)
+Theorem C16_members_sorted : forall input m, parse_bytes input = OOk m ->
+  Forall (fun s => Sorted.StronglySorted Z.lt (map sm_tag (st_mb s))) (m_structs m).
+Proof. exact SchemaProofs.parse_bytes_structs_ok. Qed.
+Theorem C16_analysis_resolves : forall input m, parse_bytes input = OOk m -> AnalyzeProofs.module_resolved m = true.
+Proof. exact AnalyzeProofs.parse_bytes_resolved. Qed.
+Theorem C16_analysis_resolves_instance :
+  match parse_bytes (bs "module M { enum Color { RED }; struct In { 0 require int x; }; struct S { 0 require map<string, Color> m; 1 optional vector<In> v; 2 optional Color a[2]; 3 optional map<Color, vector<In>> d; }; interface I { Color f(map<int, Color> a, out vector<Color> b); }; };") with
+  | OOk m => Some (map (fun mb => sm_ty mb) (st_mb (nth 1 (m_structs m) {| st_name := []; st_mb := [] |})))
+  | _ => None
+  end = Some [ VMap (VBase BString false) (VName (bs "Color") CEnum); VVec (VName (bs "In") CStruct);
+               VArr (VName (bs "Color") CEnum) 2; VMap (VName (bs "Color") CEnum) (VVec (VName (bs "In") CStruct)) ].
+Proof. exact AnalyzeProofs.resolved_instance. Qed.
+Print Assumptions C16_members_sorted.
+Print Assumptions C16_analysis_resolves.
+Print Assumptions C16_analysis_resolves_instance.
+
+(* ---- several files (Idl/Include.v: the file system is a parameter; chain of including files, circular-reference
+   diagnostic, FindTNameType / FindEnumName through the included files) ---- *)
+(* the front end terminates on every finite file system: the include chain never repeats a name and every name on it
+   is a file, so fuel (number of files + 2) is never exhausted, whatever the files contain *)
+Theorem C16_terminates_with_includes : forall input files, Include.parse_fs input files <> Include.FFuel.
+Proof. exact IncludeProofs.parse_fs_terminates. Qed.
+(* without other files the multi-file front end is the single-file one the theorems above speak about *)
+Theorem C16_single_file_agrees : forall input m,
+  parse_bytes input = OOk m -> Include.parse_fs input [] = Include.FOk (Include.PT m []).
+Proof. exact IncludeProofs.parse_fs_single_file. Qed.
+Theorem C16_analysis_resolves_with_includes : forall input files t,
+  Include.parse_fs input files = Include.FOk t -> AnalyzeProofs.module_resolved (Include.pt_mod t) = true.
+Proof. exact IncludeProofs.parse_fs_resolved. Qed.
+Theorem C16_includes_instance :
+  Include.parse_fs (bs "#include ""d.tars"" module M { };") [ (bs "d.tars", bs "#include ""in.tars"" module D { };") ] = Include.FErr.
+Proof. exact IncludeProofs.parse_fs_circular. Qed.
+Print Assumptions C16_terminates_with_includes.
+Print Assumptions C16_single_file_agrees.
+Print Assumptions C16_analysis_resolves_with_includes.
+Print Assumptions C16_includes_instance.
+
+(* ---- the model's lexer tables are the tree's (regenerated on every run: Gen/C16Tables.v from the compiled token and
+   lexer packages, Gen/C16Translated.v from the Go source of the character classes and type predicates) ---- *)
+Theorem C16_keywords_regenerated :
+  map (fun p => (fst p, TablesProofs.tok_code (snd p))) keywords = C16Tables.c16_kw_table.
+Proof. exact TablesProofs.keywords_regenerated. Qed.
+(* one NextToken of the model = one NextToken of the compiled lexer on b, "a"b, "1"b, "0x"b (then a blank) and on the 15
+   families of c16_probe_more (string contents, comment starts and bodies, qualified names, signs, fractions, #include), every byte b:
+   first-byte dispatch (blanks, line breaks, punctuation, quote, '#', '/', NUL = end of file), identifier, number and
+   hexadecimal continuation classes *)
+Theorem C16_lexer_probes :
+  map (TablesProofs.probe_model []) TablesProofs.all_bytes = C16Tables.c16_probe_b /\
+  map (TablesProofs.probe_model [97]) TablesProofs.all_bytes = C16Tables.c16_probe_ab /\
+  map (TablesProofs.probe_model [49]) TablesProofs.all_bytes = C16Tables.c16_probe_1b /\
+  map (TablesProofs.probe_model [48; 120]) TablesProofs.all_bytes = C16Tables.c16_probe_0xb /\
+  map (fun f => map (TablesProofs.probe_model2 (fst (fst f)) (snd (fst f))) TablesProofs.all_bytes) C16Tables.c16_probe_more
+    = map snd C16Tables.c16_probe_more.
+Proof.
+  exact (conj TablesProofs.probe_first_byte (conj TablesProofs.probe_ident_continuation
+        (conj TablesProofs.probe_number_continuation (conj TablesProofs.probe_hex_continuation TablesProofs.probe_more)))).
+Qed.
+(* integer literals: the model accepts exactly the range the compiled lexer accepts (64 bits) *)
+Theorem C16_int_literal_range_pos : forall s u, uint_of s = Some u -> (forall c r, s = c :: r -> c <> 45 /\ c <> 43) ->
+  parse_int s = if (Z.of_N u <=? C16Tables.c16_int_lit_max)%Z then Some (Z.of_N u) else None.
+Proof. exact TablesProofs.parse_int_range_pos. Qed.
+Theorem C16_int_literal_range_neg : forall r u, uint_of r = Some u ->
+  parse_int (45 :: r) = if (C16Tables.c16_int_lit_min <=? - Z.of_N u)%Z then Some (- Z.of_N u)%Z else None.
+Proof. exact TablesProofs.parse_int_range_neg. Qed.
+(* the character classes of lexer.go and the type predicates of token.go, translated from their source, are the model's *)
+Theorem C16_char_classes_translated : forall b, (0 <= b < 256)%Z ->
+  C16Translated.tr_c16_isNewLine b = GoSem.Return (is_newline (Z.to_N b)) /\
+  C16Translated.tr_c16_isNumber b = GoSem.Return (is_number (Z.to_N b)) /\
+  C16Translated.tr_c16_isHexNumber b = GoSem.Return (is_hexl (Z.to_N b)) /\
+  C16Translated.tr_c16_isLetter b = GoSem.Return (is_letter (Z.to_N b)).
+Proof.
+  intros b Hb. exact (conj (TablesProofs.tr_isNewLine_equiv b Hb) (conj (TablesProofs.tr_isNumber_equiv b Hb)
+    (conj (TablesProofs.tr_isHexNumber_equiv b Hb) (TablesProofs.tr_isLetter_equiv b Hb)))).
+Qed.
+Theorem C16_type_predicates_translated : forall t, In t TablesProofs.all_toks ->
+  C16Translated.tr_c16_IsType (Z.of_N (TablesProofs.tok_code t)) = GoSem.Return (is_type_tok t) /\
+  C16Translated.tr_c16_IsNumberType (Z.of_N (TablesProofs.tok_code t)) = GoSem.Return (match t with TTy b => num_bty b | _ => false end).
+Proof. intros t H. exact (conj (TablesProofs.tr_IsType_equiv t H) (TablesProofs.tr_IsNumberType_equiv t H)). Qed.
+
+(* the generator's per-type tables (gen_go.go genType / typeDef through the verif hook, utils.UpperFirstLetter) are what
+   Idl/Schema.v assumes: Go type of every scalar IDL type, zero text of an optional member without default, capitalisation *)
+Theorem C16_gentype_regenerated : forall m b u t, Schema.ty_of m (VBase b u) = Some t ->
+  GenTablesProofs.lookup_gt (TablesProofs.bty_code b) u C16Tables.c16_gentype = Some (GenTablesProofs.ty_go_name t, true).
+Proof. exact GenTablesProofs.gentype_scalars. Qed.
+Theorem C16_typedef_regenerated : forall m b t, Schema.ty_of m (VBase b false) = Some t ->
+  GenTablesProofs.lookup_td (TablesProofs.bty_code b) C16Tables.c16_typedef = Some (GenTablesProofs.zero_text t, true).
+Proof. exact GenTablesProofs.typedef_scalars. Qed.
+Theorem C16_names_regenerated :
+  map (fun p => GenTablesProofs.go_user_name (fst p)) C16Tables.c16_gentype_names = map snd C16Tables.c16_gentype_names /\
+  (map (fun b => upper_first [b]) GenTablesProofs.ascii = C16Tables.c16_upper_first_1 /\
+   map (fun b => upper_first [b; 120]) GenTablesProofs.ascii = C16Tables.c16_upper_first_2 /\
+   upper_first [] = C16Tables.c16_upper_first_empty).
+Proof. exact (conj GenTablesProofs.gentype_names GenTablesProofs.upper_first_regenerated). Qed.
+Print Assumptions C16_gentype_regenerated.
+Print Assumptions C16_typedef_regenerated.
+Print Assumptions C16_names_regenerated.
+Print Assumptions C16_keywords_regenerated.
+Print Assumptions C16_lexer_probes.
+Print Assumptions C16_int_literal_range_pos.
+Print Assumptions C16_int_literal_range_neg.
+Print Assumptions C16_char_classes_translated.
+Print Assumptions C16_type_predicates_translated.
 Print Assumptions C16_lexer_render.
 Print Assumptions C16_accepts_rendered.
 Print Assumptions C16_valid_accepted.
